@@ -250,7 +250,7 @@ def r1_decoder_inputs(ctx):
         ub = ds.body_of(uimpl[0])
         n2 = _names(uimpl[0])
         for ab, i, st in ub.aggregates(r"^extractor::body::UntypedBody$"):
-            _chain(ctx, R, "raw:content-is-the-body-bytes", ub, st["rv"]["ops"][0], BODY_READ + [r"bytes::BytesMut::freeze$"], (ub, ab), must_call=r"StreamingBody::into_bytes_mut$",
+            _chain(ctx, R, "raw:content-is-the-body-bytes", ub, st["rv"]["ops"][0], BODY_READ + [r"bytes::BytesMut::freeze$", r"Result::<T, E>::map$"], (ub, ab), must_call=r"StreamingBody::into_bytes_mut$",
                    origin=_from_upvar_param(ds, ub, n2.get("rqctx", [1]) + n2.get("request", [2])))
         for bb, t in ub.live_calls(r"StreamingBody::new$"):
             _chain(ctx, R, "raw:reads-this-request's-body", ub, t["args"][0], ASYNC + [r"http::Request::<T>::into_parts$", r"http::Request::<T>::into_body$"], (ub, bb),
@@ -397,12 +397,24 @@ def _accumulation(ctx, R):
         return
     # ---- fold form: h is the closure handed to try_fold
     folds = [(bb, t) for bb, t in ib.live_calls(r"TryStreamExt::try_fold$") if any(g is h for g, _ in closure_args_of_call(ib, t))]
+    # the accumulator may be moved, whole, into a local before it is appended to (`|acc, chunk| ready(Ok(append(acc, &chunk)))` with the
+    # helper `fn append(mut acc: BytesMut, ..) -> BytesMut` inlined): the chain of whole-value moves back to the parameter is one value
+    acc_locals = [2]
+    for _ in range(6):
+        more = [st["pl"]["l"] for _b, _i, st in h.stmts() if st["rv"]["rv"] == "use" and st["rv"]["op"].get("k") == "move" and not st["rv"]["op"]["pl"]["p"]
+                and st["rv"]["op"]["pl"]["l"] in acc_locals and not st["pl"]["p"] and st["pl"]["l"] not in acc_locals and st["pl"]["l"] != 0]
+        if not more:
+            break
+        acc_locals += more
+    if root in acc_locals:
+        root = 2
     ctx.check(R, "accumulate:appends-each-chunk-whole", len(folds) == 1 and a0.params() == [2] and root == 2 and a1.params() == [3] and not callee_allow(a0, ASYNC) and not callee_allow(a1, ASYNC)
               and not _consts(a1) and not [a for a in a1.atoms if a[0] in ("binop", "unop")],
               "the append site is in the closure of %d try_fold call(s); put(acc <- params %s, chunk <- params %s)" % (len(folds), a0.params(), a1.params()), (h, pb))
     ctx.check(R, "accumulate:every-chunk-is-appended", h.must_pass([pb]), "every path through the fold closure passes the append: %s" % h.must_pass([pb]), (h, pb))
     rs = h.slice({"l": 0, "p": []})
-    writers = _mut_borrowers(h, 2)
+    writers = sorted(set((bb, t["callee"]) for l in acc_locals for bb, t in _mut_borrowers(h, l)))
+    writers = [(bb, {"callee": c}) for bb, c in writers]
     ctx.check(R, "accumulate:returns-the-accumulator", 2 in rs.params() and not callee_allow(rs, ASYNC + [r"futures::future::ok$", r"future::ready$", APPEND]) and [bb for bb, _ in writers] == [pb],
               "fold closure returns params %s via %s; calls that borrow the accumulator mutably: %s" % (rs.params(), rs.callee_names(), sorted(set(t["callee"] for _, t in writers))), h)
     for bb, t in folds:
@@ -1202,7 +1214,7 @@ LEVEL_TEXT += (" R2 also decides the table when it is written through a generic 
                "the visiting callable passes its own argument on untouched, the parsing code hands it the Ok payload of the one parse exactly once (`.and_then(f)` / `.map(f)` / `f(v)`, lib_c09.handoffs), and the "
                "helper's type parameter is read off the callable's argument type. R1's query clause accepts the raw query as text or as its bytes (`str::as_bytes`) with an empty literal default (text or byte string, "
                "`c[..]` only as a full-range Index); the streamed chunk's chain starts at the variant-precise sources of the item (lib_c01.sources), so a chunk that comes out of a spliced async helper as `Ok(Some(data))` is `data`.")
-LEVEL_TEXT += " Also (R11): nothing on the dispatch path rewrites the request head (only read accessors and Request::map are used). Also (R2, wrapper kinds): deserialize_option / deserialize_newtype_struct hand the deserializer itself to visit_some / visit_newtype_struct on every path; (R5) once the MIME parser accepted the Content-Type every path leads to the Multipart constructor."
+LEVEL_TEXT += " Also (R11): nothing on the dispatch path rewrites the request head (only read accessors and Request::map are used). Also (R2, wrapper kinds): deserialize_option / deserialize_newtype_struct hand the deserializer itself to visit_some / visit_newtype_struct on every path; (R5) once the MIME parser accepted the Content-Type every path leads to the Multipart constructor. Also: deserialize_enum hands the deserializer to visit_enum on every path (R2); the address a TlsConn is built with comes straight from the accept() that produced its socket (R3); the buffering helper returns only after the stream was pulled to its end (R1)."
 
 
 SELFTEST += [
